@@ -111,19 +111,23 @@ func (p *Parser) AppendLastReturnT() {
 		return
 	}
 
+	// a multiple assignment leaves its list of targets here, not a single value
+	lastEvaluatedT, ok := p.lastEvaluatedT.(*base.T)
+	if !ok {
+		lastEvaluatedT = base.MakeUnknown()
+	}
+
 	for _, candidateT := range p.lastReturnT {
-		if candidateT.IsMatchType(p.lastEvaluatedT.(*base.T)) {
+		if candidateT.IsMatchType(lastEvaluatedT) {
 			return
 		}
 	}
 
-	if p.lastEvaluatedT.(*base.T) == nil {
+	if lastEvaluatedT == nil {
 		p.lastReturnT = append(p.lastReturnT, *base.MakeNil())
 
 		return
 	}
-
-	lastEvaluatedT := p.lastEvaluatedT.(*base.T)
 
 	if lastEvaluatedT.IsUnionType() {
 		p.lastReturnT = append(p.lastReturnT, lastEvaluatedT.GetVariants()...)
